@@ -411,6 +411,45 @@ func (f structFamily) siblings() []func() ([]byte, string) {
 	return out
 }
 
+// oversized: every 32-bit length field set to 2^26 (64 MiB: far above any configured limit, far
+// below the 2 GiB ceiling) while the length of its record is set to 2^40 - the one pair of fields
+// whose bounds depend on each other in every parser ("the inner length fits the record").
+func (f structFamily) oversized() []func() ([]byte, string) {
+	var out []func() ([]byte, string)
+	s := f.seed
+	fields := sizeFields(s)
+	recLenOf := map[string]c10Field{} // "<op> at <off>" -> its record_length field
+	keyOf := func(fl c10Field) string {
+		if i := strings.Index(fl.what, " of the record at "); i >= 0 {
+			return fl.what[i:]
+		}
+		return fl.what
+	}
+	for _, fl := range fields {
+		if fl.field == "record_length" {
+			recLenOf[keyOf(fl)] = fl
+		}
+	}
+	for _, fl := range fields {
+		rl, ok := recLenOf[keyOf(fl)]
+		if fl.w != 4 || !ok {
+			continue
+		}
+		for _, big := range []uint64{1 << 26, 1<<26 + 1<<20} {
+			for _, rlen := range []uint64{1 << 40, 1<<26 + 1<<21} {
+				fl, rl, big, rlen := fl, rl, big, rlen
+				out = append(out, func() ([]byte, string) {
+					b := append([]byte(nil), s.bytes...)
+					putLE(b[fl.off:], 4, big)
+					putLE(b[rl.off:], 8, rlen)
+					return b, fmt.Sprintf("%s -> %d and its record length -> %d", fl.what, big, rlen)
+				})
+			}
+		}
+	}
+	return out
+}
+
 var hostile2 = map[int][]uint64{
 	1: {0, 0xff},
 	2: {0, 0xffff},
